@@ -288,3 +288,68 @@ for _lt in ("sr_latch", "rs_latch"):
                                   "hold_gate": ty.TOpt(ty.TObj("EntityPlacement", only=("EntityPlacement",)))}},
         properties=("C05",), min_obligations=2, no_replay=True, note=f"{_lt}; non-inlined path"))
 CONTRACTS += [name_lookup, sr_callee, rs_callee]
+
+# =================================================================================================
+# MemoryBuilder._create_latch_multiplier: the cell reads v while the latch is on: one arithmetic combinator computing
+# (latch output, from the GREEN feedback wire only) * (v: the constant, or the signal from the RED wire only), on the
+# cell's signal, fed by an explicit green wire from the latch.
+# =================================================================================================
+MUL = {}
+
+
+def _mul_place(ex, a):
+    MUL["p"] = {k: getattr(a, k) for k in ("ir_node_id", "entity_type", "operation", "left_operand", "left_operand_wires", "right_operand",
+                                           "right_operand_wires", "output_signal")}
+    return SObj(["EntityPlacement"], fresh_name("mul"), lazy=True)
+
+
+mul_place = Contract(qualname="dsl_compiler/src/layout/layout_plan.py::LayoutPlan.create_and_add_placement",
+                     params={"self": _OPQ, "ir_node_id": _OPQ, "entity_type": _OPQ, "position": _OPQ, "footprint": _OPQ, "role": _OPQ, "debug_info": _OPQ,
+                             "operation": _OPQ, "left_operand": _OPQ, "left_operand_wires": _OPQ, "right_operand": _OPQ, "right_operand_wires": _OPQ,
+                             "output_signal": _OPQ}, effect=_mul_place, verify=False, note="records the placement")
+
+
+def _wire_effect(ex, a):
+    MUL["wire"] = a.connection
+    return None
+
+
+add_wire = Contract(qualname="dsl_compiler/src/layout/layout_plan.py::LayoutPlan.add_wire_connection", params={"self": _OPQ, "connection": _OPQ},
+                    effect=_wire_effect, verify=False, note="records the explicit wire")
+
+
+def _mul_post(a, res):
+    p, w = MUL.get("p"), MUL.get("wire")
+    if p is None or w is None:
+        return False
+    v = a.multiplier_value
+    cs = [p["entity_type"] == "arithmetic-combinator", p["operation"] == "*", p["left_operand"] is a.latch_signal, p["left_operand_wires"] == {"green"},
+          p["output_signal"] is a.module.signal_type,
+          w.source_entity_id is a.latch_id, w.wire_color == "green", w.source_side == "output", w.sink_side == "input"]
+    if isinstance(v, SObj):
+        cs += [p["right_operand"] is MUL.get("vname"), p["right_operand_wires"] == {"red"}]
+    else:
+        cs += [p["right_operand"] is v]
+    return all(bool(c) if not ops.is_sym(c) else True for c in cs) and And(*[c for c in cs if ops.is_sym(c)])
+
+
+def _vname(ex, a):
+    v = z3.String(fresh_name("value_signal_name"))
+    MUL["vname"] = v
+    return v
+
+
+value_name = Contract(qualname=signal_name.qualname, params=signal_name.params, effect=_vname, verify=False, note="name lookup")
+CONTRACTS.append(Contract(
+    qualname=MB + "_create_latch_multiplier",
+    params={"self": ty.TObj("MemoryBuilder", only=("MemoryBuilder",)), "op": ty.TObj("IRLatchWrite", only=("IRLatchWrite",)),
+            "module": ty.TObj("MemoryModule", only=("MemoryModule",)), "latch_id": ty.Str, "latch_signal": ty.Str,
+            "multiplier_value": _SRREF, "signal_graph": ty.TOpaque("graph")},
+    requires=[("(reset)", lambda a: MUL.clear() or True)],
+    ensures=[("latch output (green only) * v (constant, or signal from red only) on the cell's signal, fed by a green wire from the latch", _mul_post)],
+    uses={"LayoutPlan.create_and_add_placement": mul_place, "LayoutPlan.add_wire_connection": add_wire, "SignalAnalyzer.get_signal_name": value_name,
+          "MemoryBuilder._make_multiplier_debug_info": "skip", "opaque.add_sink": "skip"},
+    dynamic_types={"self": {"layout_plan": ty.TObj("LayoutPlan", only=("LayoutPlan",)), "signal_analyzer": ty.TObj("SignalAnalyzer", only=("SignalAnalyzer",))},
+                   "op": {"memory_id": ty.Str}, "module": {"signal_type": ty.Str}},
+    properties=("C05",), min_obligations=1, no_replay=True))
+CONTRACTS += [mul_place, add_wire, value_name]
